@@ -213,7 +213,7 @@ type Fault struct {
 // parsed through small fixed buffers).
 func CustomFormat(custom string) string {
 	if custom == "xorlong" {
-		return "x-xor-with-a-long-name"
+		return "x-xor-long-name-18"
 	}
 	return "x-" + custom
 }
